@@ -495,6 +495,56 @@ def r11_exactly_one_and_expiry(idx, r):
                       "long-expired ones are silently renamed")
 
 
+# numeric kind of each coerced cross-section option, confirmed by reading XSModelingOptions and its documentation: counts are ints,
+# everything measured (sizes, densities, thresholds, priorities that may be interleaved such as 2.5) is real
+XS_COERCIONS = {"CONF_INTERNAL_RINGS": "int", "CONF_EXTERNAL_RINGS": "int", "CONF_XS_MAX_ATOM_NUMBER": "int", "CONF_MESH_PER_CM": "float", "CONF_XS_PRIORITY": "float",
+                "CONF_MIN_DRIVER_DENSITY": "float", "CONF_TRACE_ISOTOPE_THRESHOLD": "float"}
+
+
+def r12_values_reach_the_settings(idx, r):
+    """(a) every entry of a settings file is applied, whatever its value (an explicit null is a value: it must not leave the default in place);
+    (b) a validator that normalises through a schema USES the schema's result - a schema call whose result is discarded validates but stores
+    the caller's un-coerced, shared input; (c) the numeric kind each cross-section option is coerced to is the frozen one - a real-valued
+    option coerced to int is silently truncated on assignment and on reading."""
+    f = idx.method(IO + ".SettingsReader", "_readYaml")
+    ap = [c for c in iter_calls(f.node) if dotted(c.func) == "self._applySettings"]
+    loop = next((x for x in walk_local(f.node) if isinstance(x, ast.For) and any(c in list(ast.walk(x)) for c in ap)), None)
+    if loop is None or len(ap) != 1:
+        raise AnchorMissing("SettingsReader._readYaml: loop applying every entry")
+    conds = [norm(t) for t, p in path_conditions(ast.Module(body=loop.body, type_ignores=[]), ap[0])]
+    r.require(not conds, "_readYaml:every-entry-applied", f, node=ap[0], msg=f"an entry of the file is only applied under {conds}: e.g. a setting explicitly set to null comes back as its default after a write/read cycle")
+    n = 0
+    for m in idx.modules.values():
+        if not (m.name.startswith("armi.settings") or m.name == "armi.physics.neutronics.crossSectionSettings") or ".tests" in m.name:
+            continue
+        for fn in m.all_funcs():
+            for st_ in walk_local(fn.node):
+                if isinstance(st_, ast.Expr) and isinstance(st_.value, ast.Call):
+                    d = dotted(st_.value.func) or ""
+                    last = d.split(".")[-1]
+                    if (last.isupper() and last.endswith("SCHEMA")) or last in ("schema", "_customSchema"):
+                        n += 1
+                        r.violate(f"{fn.qualname}:schema-result-used", fn, f"`{norm(st_)}` validates but throws the normalised result away: what is stored afterwards is the caller's own, un-coerced object "
+                                  "(a convergence given as '1e-4' stays a string; the stored dictionaries are shared with the caller)", node=st_)
+    r.ok("schema-calls-scanned", f)
+    xm = idx.modules.get("armi.physics.neutronics.crossSectionSettings")
+    sch = xm.consts.get("_SINGLE_XS_SCHEMA") if xm is not None else None
+    if sch is None:
+        raise AnchorMissing("crossSectionSettings._SINGLE_XS_SCHEMA")
+    seen = {}
+    for d in [x for x in ast.walk(sch) if isinstance(x, ast.Dict)]:
+        for k, v in zip(d.keys, d.values):
+            if isinstance(k, ast.Call) and k.args and isinstance(k.args[0], ast.Name) and isinstance(v, ast.Call) and (dotted(v.func) or "").endswith("Coerce") and v.args:
+                seen[k.args[0].id] = norm(v.args[0])
+    for k, t in sorted(XS_COERCIONS.items()):
+        if k not in seen:
+            raise AnchorMissing(f"_SINGLE_XS_SCHEMA: Coerce entry for {k}")
+        r.require(seen[k] == t, f"xs-schema:{k}:{t}", (xm.relpath, sch.lineno), msg=f"{k} is coerced to {seen[k]} (frozen: {t}): a fractional value is truncated on assignment and on reading instead of being kept")
+    extra = sorted(set(seen) - set(XS_COERCIONS))
+    if extra:
+        raise AnalysisError(f"_SINGLE_XS_SCHEMA has coerced options the frozen table does not know: {extra}")
+
+
 def run(idx, chk):
     chk.explanation = (
         "C17: schema validation dominating the store in Setting.setValue and the frozen writers of Setting._value; the renamed name being the one "
@@ -520,3 +570,5 @@ def run(idx, chk):
                  necessary="medium style keeps every setting the user entered, under whatever accepted name")
     chk.run_rule("R17.11", "a cycle entry needs exactly one duration input; an old name expires once its date has passed", lambda r: r11_exactly_one_and_expiry(idx, r), floor=2,
                  necessary="type and consistency violations are rejected when the settings are read; accepted old names are exactly the unexpired ones")
+    chk.run_rule("R17.12", "every file entry is applied; schema results are used; cross-section options keep their numeric kind", lambda r: r12_values_reach_the_settings(idx, r), floor=9,
+                 necessary="a value written reads back as the same value of the same type")
